@@ -124,6 +124,12 @@ func runC08(rc *RunCtx) {
 		})
 		return
 	}
+	// one run in 16: real concurrency below operation granularity - tasks
+	// parked inside a cache read or a commit while another one commits
+	if tp.Pick(16) == 15 {
+		inBubble(rc, func() { runC08CacheConcurrent(rc) })
+		return
+	}
 	o := StackOpts{Bottom: []string{"inmem", "simdisk"}[tp.Pick(2)]}
 	o.Encoding = tp.Pick(2) == 1
 	if tp.Pick(2) == 1 {
@@ -439,4 +445,169 @@ func c08Drive(rc *RunCtx, st *Stack, extra int) {
 	s.ProbeN("txn_commits", commits)
 	rc.Res.Sample = map[string]any{"stack": st.Name, "history": tail(hist, 25)}
 	rc.Res.StateSig = fmt.Sprintf("%s/c%d/x%d", st.Name, commits, conflicts)
+}
+
+// ---- concurrent mode through the cache ----
+//
+// 2-4 tasks over the gated simulated disk (a scheduling point before and,
+// in two runs of three, after every storage operation; long stalls; yield on
+// lock release): every write is made by a transaction (get, put / delete,
+// commit), the other operations are plain reads through the same cache.
+// Oracle ("the writes of a committed transaction become visible"): once all
+// tasks are done, a plain read through the cache returns, for every key, what
+// the store holds - a reader that was parked between its storage read and its
+// cache fill while a transaction on that key committed must not leave the
+// old value behind; and during the run a transaction that committed saw, for
+// every key it read and also wrote, a value that some committed transaction
+// wrote (never a rolled-back or failed one's).
+func runC08CacheConcurrent(rc *RunCtx) {
+	s, tp := rc.S, rc.S.Tape
+	o := StackOpts{Bottom: "simdisk", CacheSize: []int{4, 8, 64, 300}[tp.Pick(4)]}
+	o.Encoding = tp.Pick(2) == 1
+	if tp.Pick(2) == 1 {
+		o.Barrier = true
+		o.Views = []string{"logical/"}
+	}
+	rc.Cfg("stack", "concurrent:"+o.String())
+	st, err := BuildStack(s, o)
+	if err != nil {
+		panic(err)
+	}
+	st.Disk.PostGate = tp.Pick(3) != 0
+	rc.Cfg("post_gate", st.Disk.PostGate)
+	keys := []string{"a", "b", "d/x"}
+	type cop struct {
+		kind     string // get tx
+		key      string // get: the key; tx: the key read
+		key2     string // tx: the key written
+		val      string // "" = delete
+		rollback bool
+	}
+	nTasks := 2 + tp.Pick(3)
+	nval := 0
+	scripts := make([][]cop, nTasks)
+	for t := range scripts {
+		for j := 0; j < 3+tp.Pick(4); j++ {
+			k := keys[tp.Pick(len(keys))]
+			if tp.Pick(5) < 2 {
+				scripts[t] = append(scripts[t], cop{kind: "get", key: k})
+				continue
+			}
+			op := cop{kind: "tx", key: k, key2: keys[tp.Pick(len(keys))], rollback: tp.Pick(8) == 0}
+			if tp.Pick(5) != 0 {
+				nval++
+				op.val = fmt.Sprintf("v%d", nval)
+			}
+			scripts[t] = append(scripts[t], op)
+		}
+	}
+	var hist []string
+	committed := map[string]map[string]bool{} // key -> values written by committed transactions
+	uncommitted := map[string]string{}        // value -> why it never became durable
+	for _, k := range keys {
+		committed[k] = map[string]bool{}
+	}
+	bad := ""
+	s.SwarmFreeze()
+	rc.Cfg("sched", fmt.Sprintf("stall=%d yield_on_release=%v", s.FreezePermille, s.YieldOnRelease))
+	s.SetControlled()
+	for t := range scripts {
+		t := t
+		name := fmt.Sprintf("c%d", t)
+		s.Go(name, func() {
+			for _, op := range scripts[t] {
+				if op.kind == "get" {
+					v, ok, err := st.KV.Get(op.key)
+					s.mu.Lock()
+					hist = append(hist, fmt.Sprintf("%s get %s = %q %v %v", name, op.key, v, ok, err == nil))
+					if why, un := uncommitted[string(v)]; err == nil && ok && un && bad == "" {
+						bad = fmt.Sprintf("plain get %q returned %q, written only by a transaction that %s", op.key, v, why)
+					}
+					s.mu.Unlock()
+					continue
+				}
+				tx, err := st.Begin(false)
+				if err != nil {
+					continue
+				}
+				_, _, err = tx.Get(op.key)
+				if err == nil {
+					if op.val == "" {
+						err = tx.Delete(op.key2)
+					} else {
+						err = tx.Put(op.key2, []byte(op.val))
+					}
+				}
+				outcome := "committed"
+				switch {
+				case err != nil:
+					tx.Rollback()
+					outcome = "failed before commit"
+				case op.rollback:
+					tx.Rollback()
+					outcome = "was rolled back"
+				default:
+					if err = tx.Commit(); err != nil {
+						outcome = "failed to commit"
+					}
+				}
+				s.mu.Lock()
+				hist = append(hist, fmt.Sprintf("%s tx get %s, put %s=%q -> %s", name, op.key, op.key2, op.val, outcome))
+				if op.val != "" {
+					if outcome == "committed" {
+						committed[op.key2][op.val] = true
+					} else {
+						uncommitted[op.val] = outcome
+					}
+				}
+				s.mu.Unlock()
+			}
+		})
+	}
+	s.Run()
+	s.PassThrough()
+	if s.Trunc {
+		return
+	}
+	sig := map[string]any{"stack": "concurrent-cache", "cache_layer": true}
+	if bad != "" {
+		s.Violate("C08", "uncommitted-write-visible", sig, "stack %s: %s; history %v", st.Name, bad, hist)
+		return
+	}
+	// cache-less twin over the same disk
+	o2 := o
+	o2.CacheSize = 0
+	twin := &Stack{Disk: st.Disk, Bottom: st.Bottom, Barrier: st.Barrier, barrierKey: st.barrierKey}
+	if err := layer(twin, st.Bottom, o2); err != nil {
+		panic(err)
+	}
+	for _, k := range keys {
+		v1, ok1, err1 := st.KV.Get(k)
+		v2, ok2, err2 := twin.KV.Get(k)
+		if err1 != nil || err2 != nil {
+			panic(fmt.Sprint("final read: ", err1, err2))
+		}
+		if ok2 && !committed[k][string(v2)] {
+			s.Violate("C08", "uncommitted-write-visible", sig, "stack %s: the store holds %q=%q, which no committed transaction wrote; history %v", st.Name, k, v2, hist)
+			return
+		}
+		if ok1 != ok2 || string(v1) != string(v2) {
+			s.Violate("C08", "committed-write-not-visible", sig,
+				"stack %s: all tasks are done; a plain get of %q through the cache returns (%q,%v) but the last committed transaction left (%q,%v) in the store; history %v", st.Name, k, v1, ok1, v2, ok2, hist)
+			return
+		}
+		// and inside a new transaction
+		tx, err := st.Begin(true)
+		if err == nil {
+			v3, ok3, err3 := tx.Get(k)
+			tx.Rollback()
+			if err3 == nil && (ok3 != ok2 || string(v3) != string(v2)) {
+				s.Violate("C08", "committed-write-not-visible", sig, "stack %s: a new transaction reads %q=(%q,%v), the store holds (%q,%v); history %v", st.Name, k, v3, ok3, v2, ok2, hist)
+				return
+			}
+		}
+	}
+	s.Probe("cache_concurrent_checked")
+	rc.Res.Sample = map[string]any{"stack": st.Name, "history": tail(hist, 16)}
+	rc.Res.StateSig = "conc/" + st.Name
 }
